@@ -41,6 +41,8 @@ pub(crate) struct ThView {
     pub dpor_vv: VersionVec,
     pub last_yield: Option<u16>,
     pub yield_count: usize,
+    /// an unpark that arrived while the thread was blocked on an object or yielded
+    pub pending_unpark: bool,
 }
 
 pub(crate) fn th_view(t: &Thread) -> ThView {
@@ -53,11 +55,13 @@ pub(crate) fn th_view(t: &Thread) -> ThView {
         dpor_vv: t.dpor_vv,
         last_yield: t.last_yield,
         yield_count: t.yield_count,
+        pending_unpark: t.pending_unpark,
     }
 }
 
 pub(crate) fn th_view_eq(a: &ThView, b: &ThView) -> bool {
     a.st == b.st
+        && a.pending_unpark == b.pending_unpark
         && a.critical == b.critical
         && a.op == b.op
         && vv_eq(&a.causality, &b.causality)
@@ -70,6 +74,7 @@ pub(crate) fn th_view_eq(a: &ThView, b: &ThView) -> bool {
 /// Same as `th_view_eq` but ignoring `causality`.
 pub(crate) fn th_view_eq_except_causality(a: &ThView, b: &ThView) -> bool {
     a.st == b.st
+        && a.pending_unpark == b.pending_unpark
         && a.critical == b.critical
         && a.op == b.op
         && vv_eq(&a.released, &b.released)
@@ -78,7 +83,7 @@ pub(crate) fn th_view_eq_except_causality(a: &ThView, b: &ThView) -> bool {
         && a.yield_count == b.yield_count
 }
 
-/// Same as `th_view_eq` but ignoring the scheduling state.
+/// Same as `th_view_eq` but ignoring the scheduling state (and where the park token is kept).
 pub(crate) fn th_view_eq_except_state(a: &ThView, b: &ThView) -> bool {
     a.critical == b.critical
         && a.op == b.op
@@ -176,6 +181,7 @@ pub(crate) fn any_thread(eid: execution::Id, i: usize) -> Thread {
         dpor_vv: any_vv(),
         last_yield: kani::any(),
         yield_count: kani::any(),
+        pending_unpark: kani::any(),
         locals: HashMap::new(),
         span: tracing::Span::none(),
     }
@@ -192,6 +198,7 @@ pub(crate) fn fresh_thread(eid: execution::Id, i: usize) -> Thread {
         dpor_vv: zero_vv(),
         last_yield: None,
         yield_count: 0,
+        pending_unpark: false,
         locals: HashMap::new(),
         span: tracing::Span::none(),
     }
@@ -288,6 +295,11 @@ pub(crate) fn wf_thread_ops(s: &Set) -> bool {
         if matches!(t.state, State::Terminated | State::Yield) {
             ok = ok && t.operation.is_none();
         }
+        // a pending unpark is only kept while the thread cannot consume it: a runnable thread carries
+        // its token in `Runnable { unparked }`, a parked thread has none (park consumes it first)
+        if matches!(t.state, State::Runnable { .. }) || (matches!(t.state, State::Blocked(..)) && t.operation.is_none()) {
+            ok = ok && !t.pending_unpark;
+        }
         i += 1;
     }
     ok
@@ -308,7 +320,12 @@ pub(crate) fn is_parked(v: &ThView) -> bool {
     v.st == StView::Blocked && v.op.is_none()
 }
 pub(crate) fn has_token(v: &ThView) -> bool {
-    v.st == (StView::Runnable { unparked: true })
+    v.st == (StView::Runnable { unparked: true }) || v.pending_unpark
+}
+
+/// What a blocked / yielded thread looks like once it is made runnable again: its token comes back.
+pub(crate) fn woken(v: &ThView) -> StView {
+    StView::Runnable { unparked: v.pending_unpark }
 }
 
 // ================================================================================================
@@ -324,6 +341,7 @@ fn set_unparked_body(region: u8) {
     t.operation = if k == 0 { None } else { Some(crate::rt::object::verif_kani::op_opaque(0)) };
     let o = th_view(&t);
     kani::assume(!matches!(o.st, StView::Terminated | StView::Yield) || o.op.is_none());
+    kani::assume(!(matches!(o.st, StView::Runnable { .. }) || is_parked(&o)) || !o.pending_unpark);
     let blocked_on_object = o.st == StView::Blocked && o.op.is_some();
     let yielded = o.st == StView::Yield;
     match region {
@@ -335,23 +353,25 @@ fn set_unparked_body(region: u8) {
     let n = th_view(&t);
     oblige!("C08.set_unparked.touches_only_the_scheduling_state", th_view_eq_except_state(&o, &n));
     if is_parked(&o) {
-        oblige!("C08.set_unparked.wakes_a_parked_thread", n.st == (StView::Runnable { unparked: false }));
+        oblige!("C08.set_unparked.wakes_a_parked_thread", n.st == (StView::Runnable { unparked: false }) && !n.pending_unpark);
     } else if matches!(o.st, StView::Runnable { .. }) {
-        oblige!("C08.set_unparked.stores_token_for_running_thread", n.st == (StView::Runnable { unparked: true }));
+        oblige!("C08.set_unparked.stores_token_for_running_thread", n.st == (StView::Runnable { unparked: true }) && !n.pending_unpark);
     } else if o.st == StView::Terminated {
         oblige!("C08.set_unparked.terminated_stays_terminated", n.st == StView::Terminated);
     } else if blocked_on_object {
-        // C05/C08: unparking a thread that is blocked on a lock / join / channel must not wake it
+        // C05/C08: unparking a thread that is blocked on a lock / join / channel must not wake it ...
         oblige!("C05.unpark_elsewhere.thread_blocked_on_object_is_not_woken", n.st == StView::Blocked);
+        // ... and the notification is not lost
+        oblige!("C08.token_kept.unpark_of_blocked_thread", has_token(&n));
     } else {
-        // yielded thread: the token must not be lost (it will run again anyway)
-        oblige!("C08.token_kept.unpark_of_yielded_thread", n.st == (StView::Runnable { unparked: true }));
+        // yielded thread: stays yielded (de-prioritised), the token must not be lost
+        oblige!("C08.token_kept.unpark_of_yielded_thread", n.st == StView::Yield && has_token(&n));
     }
     std::mem::forget(t);
     reach!("c08_set_unparked");
 }
 
-//@ props=C08,C05 tier=quick fns=src/rt/thread.rs::Thread::set_unparked
+//@ props=C08,C05 tier=quick fns=src/rt/thread.rs::Thread::set_unparked,src/rt/thread.rs::Thread::is_parked
 #[kani::proof]
 #[kani::unwind(7)]
 #[kani::stub(std::hash::RandomState::new, fixed_random_state)]
@@ -373,6 +393,48 @@ fn c08_set_unparked__inside_blocked_on_object() {
 #[kani::stub(std::hash::RandomState::new, fixed_random_state)]
 fn c08_set_unparked__inside_yielded() {
     set_unparked_body(2);
+}
+
+// the token-preserving transitions themselves
+//@ props=C08,C05 tier=quick fns=src/rt/thread.rs::Thread::set_runnable,src/rt/thread.rs::Thread::set_blocked,src/rt/thread.rs::Thread::set_yield,src/rt/thread.rs::Thread::has_unpark_token,src/rt/thread.rs::Thread::consume_unpark_token
+#[kani::proof]
+#[kani::unwind(7)]
+#[kani::stub(std::hash::RandomState::new, fixed_random_state)]
+fn c08_token_survives_state_transitions() {
+    let eid = execution::Id::new();
+    let i: usize = kani::any();
+    kani::assume(i < MAX_THREADS);
+    let mut t = any_thread(eid, i);
+    kani::assume(t.yield_count < usize::MAX);
+    let o = th_view(&t);
+    oblige!("C08.token.has_unpark_token_is_the_view_predicate", t.has_unpark_token() == has_token(&o));
+    match kani::any::<u8>() {
+        0 => {
+            t.set_blocked(Location::disabled());
+            let n = th_view(&t);
+            oblige!("C08.token_kept.set_blocked", n.st == StView::Blocked && has_token(&n) == has_token(&o));
+        }
+        1 => {
+            t.set_runnable();
+            let n = th_view(&t);
+            oblige!("C08.token_kept.set_runnable", n.st == (StView::Runnable { unparked: has_token(&o) }) && !n.pending_unpark);
+        }
+        2 => {
+            t.set_yield();
+            let n = th_view(&t);
+            oblige!("C08.token_kept.set_yield", n.st == StView::Yield && has_token(&n) == has_token(&o));
+        }
+        _ => {
+            t.consume_unpark_token();
+            let n = th_view(&t);
+            oblige!("C08.token.consume_clears_it_and_nothing_else", !has_token(&n)
+                && (n.st == o.st || (matches!(o.st, StView::Runnable { .. }) && n.st == (StView::Runnable { unparked: false }))));
+        }
+    }
+    let n = th_view(&t);
+    oblige!("C08.token.transitions_touch_no_clock_or_operation", vv_eq(&n.causality, &o.causality) && vv_eq(&n.released, &o.released) && vv_eq(&n.dpor_vv, &o.dpor_vv) && n.op == o.op);
+    std::mem::forget(t);
+    reach!("c08_token_transitions");
 }
 
 //@ props=C08,C04 tier=quick fns=src/rt/thread.rs::Set::unpark,src/rt/thread.rs::Thread::unpark,src/rt/thread.rs::Set::active2_mut bounded=threads:N=3 models=VersionVec::join=s_vv_models_agree
@@ -422,6 +484,7 @@ fn c18_set_yield() {
     let o = th_view(&t);
     t.set_yield();
     let n = th_view(&t);
+    oblige!("C08.token_kept.set_yield", has_token(&n) == has_token(&o));
     oblige!("C18.set_yield.state_and_counters", n.st == StView::Yield && n.yield_count == o.yield_count + 1
         && n.last_yield == Some(crate::rt::vv::verif_kani::get(&o.causality, i)));
     oblige!("C18.set_yield.clocks_untouched", vv_eq(&n.causality, &o.causality) && vv_eq(&n.released, &o.released) && vv_eq(&n.dpor_vv, &o.dpor_vv) && n.op == o.op);
